@@ -297,8 +297,25 @@ class LaneAlg:
 
     def xor_masks(self, x, y):
         """x ^ y for 'ones' masks with y contained in one segment of x."""
-        if not all(s.src == "ones" for s in x.segs + y.segs):
-            raise AnalysisError("lanes: ^ of non-mask values")
+        if not all(s.src == "ones" for s in y.segs):
+            if all(s.src == "ones" for s in x.segs):
+                return self.xor_masks(y, x)
+            raise AnalysisError("lanes: ^ of two non-mask values")
+        if not all(s.src == "ones" for s in x.segs):
+            # value ^ mask: the masked lanes are complemented
+            out = list(self.minus(x, y).segs)
+            for t in y.segs:
+                covered = BV([])
+                for s in x.segs:
+                    c = self._clip(s, t.a, t.b) if not (
+                        self.f.le(s.b, t.a) or self.f.le(t.b, s.a)) else None
+                    if c is not None:
+                        out.append(Seg(c.a, c.b, "~" + c.src
+                                       if not c.src.startswith("~")
+                                       else c.src[1:], c.off))
+                        covered.segs.append(Seg(c.a, c.b, "ones"))
+                out += self.minus(BV([t]), covered).segs
+            return BV(out)
         out = []
         rest = list(y.segs)
         for s in x.segs:
